@@ -109,10 +109,10 @@ def join_tokens(r, toks, loose):
     return out
 
 
-def layout(r, lines, indent="random", blank_max=0, nl="\n", tabs=False, trailing=False, comments=False):
+def layout(r, lines, indent="random", blank_max=0, nl="\n", tabs=False, trailing=False, comments=False, joined=None):
     """source text for the lines; indent: 'random' (per line 0..12 columns) or an int (columns per depth)"""
     out = []
-    for ln in lines:
+    for li, ln in enumerate(lines):
         if blank_max and r.random() < 0.35:
             for _ in range(r.randint(1, blank_max)):
                 out.append((" " * r.randint(0, 3) if trailing and r.random() < 0.3 else "") + nl)
@@ -122,7 +122,7 @@ def layout(r, lines, indent="random", blank_max=0, nl="\n", tabs=False, trailing
                 ws = r.choice(["\t", " \t", "\t ", "  \t  "])
         else:
             ws = " " * (indent * ln.depth)
-        s = ws + join_tokens(r, ln.toks, loose=True)
+        s = ws + (joined[li] if joined is not None else join_tokens(r, ln.toks, loose=True))
         if comments and r.random() < 0.15:
             s += r.choice(["  // note", " /* c */", "\t// t"])
         if trailing and r.random() < 0.3:
